@@ -43,6 +43,7 @@ M0(role, pmce) ==
    \* the W thread's current message
    open |-> FALSE, mtype |-> 0, mid |-> -1, wrote |-> 0, sent |-> 0, started |-> FALSE,
    calls |-> [t \in {"W", "K1", "K2", "K3"} |-> NoCall],
+   held |-> FALSE,            \* C20 under concurrency: a pooled write buffer is held (only by the message-writing thread)
    closedSeen |-> FALSE]
 
 Fail(m) == [m EXCEPT !.bad = TRUE]
@@ -126,8 +127,19 @@ OpR(m, it) ==
   ELSE IF FrameBase(m, it, "auto") /\ it.fin /\ it.op \in {OpPong, OpClose} /\ (it.op = OpPong => it.m >= 0)
        THEN After(m, it) ELSE Fail(m)
 
+(* Buffer pool operations (connections with a WriteBufferPool): only the message-writing thread takes and      *)
+(* returns buffers, inside its own calls, alternately; Close() and WriteControl callers never touch the pool;   *)
+(* a buffer found modified after its release (TOUCHED) is never explained.                                      *)
+PoolOp(m, t, it) ==
+  LET c == m.calls["W"] IN
+  IF it.t = "TOUCHED" \/ t # "W" THEN Fail(m)
+  ELSE IF ~c.active \/ c.api \notin {"WM", "NW", "WR", "CL"} THEN Fail(m)
+  ELSE IF it.t = "GET" THEN (IF m.held THEN Fail(m) ELSE [m EXCEPT !.held = TRUE])
+  ELSE (IF ~m.held THEN Fail(m) ELSE [m EXCEPT !.held = FALSE])
+
 Op(m, t, it) ==
   IF m.bad THEN m
+  ELSE IF it.t \in {"GET", "PUT", "TOUCHED"} THEN PoolOp(m, t, it)
   ELSE IF m.owner # "" /\ m.owner # t THEN Fail(m)          \* FrameAtomic
   ELSE IF it.t = "F" /\ m.owner # t THEN Fail(m)            \* a frame without its own deadline call
   ELSE IF t = "W" THEN OpW(m, it)
@@ -139,7 +151,7 @@ Op(m, t, it) ==
 (***************************************************************************)
 IsNil(e) == e.cls = "nil"
 
-Ret(m, t, e, late) ==
+Ret0(m, t, e, late) ==
   LET c == m.calls[t]
       m2 == [m EXCEPT !.calls[t] = NoCall]
   IN
@@ -175,4 +187,9 @@ Ret(m, t, e, late) ==
               IF IsNil(e) THEN (IF c.done \/ ~m.open THEN [m2 EXCEPT !.open = FALSE] ELSE Fail(m))
               ELSE (IF m.err # "none" THEN [m2 EXCEPT !.open = FALSE] ELSE Fail(m))
          [] OTHER -> Fail(m)
+
+Ret(m, t, e, late) ==
+  LET r == Ret0(m, t, e, late) IN
+  \* a message that has ended (WriteMessage returned, the writer was closed) holds no pooled buffer
+  IF ~r.bad /\ t = "W" /\ m.calls[t].active /\ m.calls[t].api \in {"WM", "CL"} /\ r.held THEN Fail(m) ELSE r
 =============================================================================
